@@ -337,14 +337,15 @@ func Fill(r *coqfmt.Rng, t, tt reflect.Type, c []M, num, den int) Filled {
 		fv := v.Field(i)
 		if sf.Type == strPtrType && (k >= 0 || hasTextU) {
 			var s string
+			var guess reflect.Type
+			if len(targets) > 0 {
+				guess = targets[r.Intn(len(targets))]
+			}
 			switch {
 			case positional && targets[i] != nil:
 				s = rty.TextFor(r, targets[i])
-			case len(targets) > 0 && targets[r.Intn(len(targets))] != nil:
-				s = rty.TextFor(r, targets[r.Intn(len(targets))])
-				if s == "" {
-					s = "7"
-				}
+			case guess != nil:
+				s = rty.TextFor(r, guess)
 			default:
 				s = []string{"abc", "12", "true", "3s", "a,b"}[r.Intn(5)]
 			}
